@@ -503,6 +503,9 @@ def cholesky_band(l, mininf=0.0):
             if not np.all(np.isfinite(x)):
                 warn('NaN found in cholesky_band.', PydlutilsUserWarning)
                 return (j, l)
+            for i in range(kn):
+                lower[0:kn-i, j+1+i] -= x[i]*x[i:]
+        lower = lower[:, 0:n]
     #
     # Restore padding.
     #
